@@ -11,7 +11,7 @@ from __future__ import annotations
 
 import ast
 
-from ..common import Ctx, call_name, is_const, is_name, src
+from ..common import Ctx, call_name, inline_locals, is_const, is_name, src
 from ..model import AnalysisError, bind_call, own_scope_nodes
 
 BASE = "tensorly.base"
@@ -62,7 +62,7 @@ def run(ctx: Ctx):
         "backend reshape / moveaxis / transpose are bijections on entries and keep the dtype (NumPy semantics; trusted)",
         "NOT decided: that the permutation is the documented one (index arithmetic of new_shape, skip_end, matricize's mode lists)",
     )
-    res.rule("SHAPE-BY-POSITION", "lists derived from a shape are edited by position (pop(i) / insert(i, x) / del / slices), never by value (remove / index / count): mode sizes are not unique, so a value-based edit picks the first axis that merely has the same size", floor=4)
+    res.rule("SHAPE-BY-POSITION", "lists derived from a shape are edited by position (pop(i) / insert(i, x) / del / slices), never by value (remove / index / count): mode sizes are not unique, so a value-based edit picks the first axis that merely has the same size (one instance per layout function scanned, plus one per list edit found)", floor=9)
     mod = repo.module(BASE)
     fis = {n: repo.func(f"{BASE}.{n}") for n in FUNCS}
     for n, fi in fis.items():
@@ -118,6 +118,7 @@ def shape_by_position(ctx: Ctx, fi):
                     if isinstance(t, ast.Name) and t.id not in shapes:
                         shapes.add(t.id)
                         changed = True
+    res.instance("SHAPE-BY-POSITION", f"{fi.name}: scanned", sample={"shape_derived_names": sorted(shapes)})
     for c in own_scope_nodes(fi.node):
         if isinstance(c, ast.Call) and isinstance(c.func, ast.Attribute) and is_shape(c.func.value) and (c.func.attr in BY_VALUE or c.func.attr in BY_POSITION):
             ok = c.func.attr in BY_POSITION
@@ -171,6 +172,30 @@ def layout_only(ctx: Ctx, fi):
                     ok = True
             elif isinstance(p, ast.Assign) and p.value is n:
                 ok = True  # plain alias
+            elif isinstance(p, ast.keyword) and p.value is n:
+                # handed to a helper nested in this function (a lifted closure variable, or an explicit argument):
+                # fine when the helper itself only reads the shape of that parameter
+                call = par.get(id(p))
+                if isinstance(call, ast.Call) and isinstance(call.func, ast.Name):
+                    helper = next((h for h in ast.walk(fi.node) if isinstance(h, ast.FunctionDef) and h is not fi.node and h.name == call.func.id), None)
+                    if helper is not None and p.arg in {a.arg for a in helper.args.args + helper.args.kwonlyargs}:
+                        hp = {}
+                        for x in ast.walk(helper):
+                            for c2 in ast.iter_child_nodes(x):
+                                hp[id(c2)] = x
+                        reads = [x for x in ast.walk(helper) if isinstance(x, ast.Name) and x.id == p.arg and isinstance(x.ctx, ast.Load)]
+                        stores = [x for x in ast.walk(helper) if isinstance(x, ast.Name) and x.id == p.arg and isinstance(x.ctx, ast.Store)]
+
+                        def shape_read(x):
+                            q = hp.get(id(x))
+                            if isinstance(q, ast.Attribute) and q.attr in ("shape", "ndim") and q.value is x:
+                                return True
+                            if isinstance(q, ast.Call) and q.args and q.args[0] is x:
+                                k2, t2 = _callee(ctx, fi, q)
+                                return k2 == "prim" and t2 in SHAPE_PRIMS
+                            return False
+
+                        ok = not stores and all(shape_read(x) for x in reads)
             if not ok:
                 bad.append((n, p))
         elif isinstance(n, ast.Name) and n.id in aliases and isinstance(n.ctx, ast.Store) and n.id == tparam:
@@ -250,9 +275,25 @@ def axis_live(ctx: Ctx, fi):
                         if isinstance(x, ast.Name) and x.id not in tainted:
                             tainted.add(x.id)
                             changed = True
+        # values of the locals a return is built from (named temporaries: moved = moveaxis(...); return reshape(moved, ...))
+        local_defs = {}
+        for st in own_scope_nodes(fi.node):
+            if isinstance(st, ast.Assign):
+                for t in st.targets:
+                    if isinstance(t, ast.Name):
+                        local_defs.setdefault(t.id, []).append(st.value)
         for r in rets:
             axis_args = []
-            for c in ast.walk(r.value):
+            exprs, seen_names, work = [r.value], set(), [r.value]
+            while work:
+                e = work.pop()
+                for x in ast.walk(e):
+                    if isinstance(x, ast.Name) and x.id in local_defs and x.id not in seen_names:
+                        seen_names.add(x.id)
+                        for v in local_defs[x.id]:
+                            exprs.append(v)
+                            work.append(v)
+            for c in (n for e in exprs for n in ast.walk(e)):
                 if isinstance(c, ast.Call):
                     kind, tgt = _callee(ctx, fi, c)
                     if kind == "prim" and tgt == "moveaxis":
@@ -308,7 +349,10 @@ def inverse_mirror(ctx: Ctx, fwd, inv):
     irets = [r for r in own_scope_nodes(inv.node) if isinstance(r, ast.Return)]
     if len(frets) != 1 or len(irets) != 1:
         raise AnalysisError(f"INVERSE-MIRROR {key}: expected exactly one return in each function; schema no longer applies")
-    fr, ir = frets[0].value, irets[0].value
+    fr, ir = inline_locals(fwd.node, frets[0].value), inline_locals(inv.node, irets[0].value)
+    for n in list(ast.walk(fr)) + list(ast.walk(ir)):
+        if not hasattr(n, "lineno"):
+            n.lineno, n.col_offset = frets[0].lineno, 0
     if not (_prim_call(ctx, fwd, fr, "reshape") and fr.args and _prim_call(ctx, fwd, fr.args[0], "moveaxis") and len(fr.args[0].args) == 3):
         raise AnalysisError(f"INVERSE-MIRROR {key}: {fwd.name} is no longer reshape(moveaxis(t, S, D), shape); cannot decide")
     S, D = fr.args[0].args[1], fr.args[0].args[2]
@@ -338,6 +382,12 @@ def inverse_mirror(ctx: Ctx, fwd, inv):
             order.append("pop")
         if isinstance(s, ast.Expr) and isinstance(s.value, ast.Call) and isinstance(s.value.func, ast.Attribute) and s.value.func.attr == "insert" and is_name(s.value.func.value, L.id) and len(s.value.args) == 2:
             ins_idx, ins_val = s.value.args
+            # fused form: L.insert(D, L.pop(S))
+            if isinstance(ins_val, ast.Call) and isinstance(ins_val.func, ast.Attribute) and ins_val.func.attr == "pop" and is_name(ins_val.func.value, L.id) and ins_val.args:
+                popped = "<fused>"
+                pop_idx = ins_val.args[0]
+                ins_val = ast.Name(id="<fused>", ctx=ast.Load())
+                order.append("pop")
             order.append("insert")
     if order != ["init", "pop", "insert"] or shape_param not in inv.all_params or pop_idx is None:
         raise AnalysisError(f"INVERSE-MIRROR {key}: shape bookkeeping of {inv.name} is no longer list(shape)/pop/insert ({order}); cannot decide")
